@@ -343,11 +343,17 @@ impl<T: Qcow2IoOps> Qcow2Dev<T> {
         Ok(())
     }
 
+    /// `refcount_first` is for mapping slices: every cluster they map must
+    /// have its refcount on disk before they are written. The slices are
+    /// read-locked first, so that no mapping can be added any more, and the
+    /// refcounts flushed then - a refcount flush done earlier doesn't cover
+    /// what was allocated and mapped while it was waiting for its fsync.
     async fn flush_cache<C: Table>(
         &self,
         cache: &AsyncLruCache<usize, AsyncRwLock<C>>,
         start: usize,
         end: usize,
+        refcount_first: bool,
     ) -> Qcow2Result<bool> {
         let entries = cache.get_dirty_entries(start, end);
 
@@ -359,7 +365,16 @@ impl<T: Qcow2IoOps> Qcow2Dev<T> {
                 end,
             );
 
+            let mut guards = Vec::new();
+            if refcount_first {
+                for (_, e) in entries.iter() {
+                    guards.push(e.value().read().await);
+                }
+                self.flush_refcount().await?;
+            }
+
             self.flush_cache_entries(entries).await?;
+            drop(guards);
             Ok(true)
         } else {
             Ok(false)
@@ -402,6 +417,7 @@ impl<T: Qcow2IoOps> Qcow2Dev<T> {
         rt: &A,
         cache: &AsyncLruCache<usize, AsyncRwLock<B>>,
         key_fn: F,
+        refcount_first: bool,
     ) -> Qcow2Result<bool>
     where
         F: Fn(u64) -> usize,
@@ -413,7 +429,7 @@ impl<T: Qcow2IoOps> Qcow2Dev<T> {
             let end = key_fn(((idx + 1) as u64) << bs_bits);
 
             let res = async {
-                if self.flush_cache(cache, start, end).await? {
+                if self.flush_cache(cache, start, end, refcount_first).await? {
                     // order cache flush and the upper layer table
                     self.call_fsync(0, usize::MAX, 0).await?;
                 }
@@ -429,7 +445,7 @@ impl<T: Qcow2IoOps> Qcow2Dev<T> {
             Ok(false)
         } else {
             // flush cache without holding top table read lock
-            if self.flush_cache(cache, 0, usize::MAX).await? {
+            if self.flush_cache(cache, 0, usize::MAX, refcount_first).await? {
                 self.call_fsync(0, usize::MAX, 0).await?;
             }
             Ok(true)
@@ -459,6 +475,7 @@ impl<T: Qcow2IoOps> Qcow2Dev<T> {
     }
 
     //// flush refcount table and block dirty data to disk
+    #[async_recursion(?Send)]
     pub(crate) async fn flush_refcount(&self) -> Qcow2Result<()> {
         let mut rt_written = false;
 
@@ -468,9 +485,12 @@ impl<T: Qcow2IoOps> Qcow2Dev<T> {
 
         loop {
             let done = self
-                .flush_meta_generic(rt, &self.refblock_cache, |off| {
-                    self.rb_slice_key_of_rt_off(off)
-                })
+                .flush_meta_generic(
+                    rt,
+                    &self.refblock_cache,
+                    |off| self.rb_slice_key_of_rt_off(off),
+                    false,
+                )
                 .await?;
             if done {
                 break;
@@ -492,7 +512,12 @@ impl<T: Qcow2IoOps> Qcow2Dev<T> {
     pub(crate) async fn flush_mapping(&self, l1: &L1Table) -> Qcow2Result<()> {
         loop {
             let done = self
-                .flush_meta_generic(l1, &self.l2cache, |off| self.l2_slice_key_of_l1_off(off))
+                .flush_meta_generic(
+                    l1,
+                    &self.l2cache,
+                    |off| self.l2_slice_key_of_l1_off(off),
+                    true,
+                )
                 .await?;
             if done {
                 break;
@@ -522,7 +547,12 @@ impl<T: Qcow2IoOps> Qcow2Dev<T> {
             let l1 = &*self.l1table.read().await;
 
             let done = self
-                .flush_meta_generic(l1, &self.l2cache, |off| self.l2_slice_key_of_l1_off(off))
+                .flush_meta_generic(
+                    l1,
+                    &self.l2cache,
+                    |off| self.l2_slice_key_of_l1_off(off),
+                    true,
+                )
                 .await?;
             if done {
                 self.mark_need_flush(false);
